@@ -15,6 +15,7 @@ import (
 	"fmt"
 	"io"
 	"sync"
+	"sync/atomic"
 	"time"
 
 	"github.com/SAP/go-dblib/asetypes"
@@ -273,16 +274,25 @@ func RxRunRegs(need, nenv, ps0 int, pkts []Pkt, regs map[int][2]int) (res sx.L, 
 			evs = sx.L{}
 		}
 		res = append(res, sx.L{evs, sx.I(int64(conn.PacketSize()))})
-		if fatal {
+		if fatal && !rxContinue {
 			break
 		}
 	}
 	return res, fed
 }
 
+// rxContinue: keep feeding packets after a parse error (as the reader goroutine does); only a panic or a hang ends the case
+var rxContinue = false
+
 // feedPacket hands a packet to the channel as the reader goroutine would. A panic is recovered and a call that does
 // not return within 5 s (e.g. blocked for good on a full error queue) is abandoned; both are reported as true:
 // the channel must not be touched afterwards (its locks may be held).
+// hangs counts calls into the library that did not return within their watchdog. After a few of them the generators
+// stop producing further cases (every one would cost the watchdog's time again): the run is a violation anyway.
+var hangs int32
+
+func tooManyHangs() bool { return atomic.LoadInt32(&hangs) >= 6 }
+
 func feedPacket(ch *tds.Channel, pkt *tds.Packet) bool {
 	done := make(chan bool, 1)
 	go func() {
@@ -298,6 +308,7 @@ func feedPacket(ch *tds.Channel, pkt *tds.Packet) bool {
 	case p := <-done:
 		return p
 	case <-time.After(5 * time.Second):
+		atomic.AddInt32(&hangs, 1)
 		return true
 	}
 }
@@ -491,7 +502,7 @@ func Packetise(msg []byte, cuts []int) []Pkt {
 }
 
 func emitRx(g *pk.Gen, need, nenv, ps0 int, pkts []Pkt, tag string) {
-	if !g.WantTag(tag) {
+	if !g.WantTag(tag) || tooManyHangs() {
 		return
 	}
 	res, fed := RxRun(need, nenv, ps0, pkts)
@@ -656,6 +667,35 @@ func GenRx(g *pk.Gen) {
 			}
 		}
 		emitRx(g, 1, 1, 512, Packetise(msg, cuts), "malformed")
+		// the same stream followed by a few more packets (a short one among them): the reader goroutine keeps routing
+		// packets to the channel after a parse error
+		if g.WantTag("malformed-continue") && !tooManyHangs() {
+			pkts := Packetise(msg, cuts)
+			pkts[len(pkts)-1].EOM = g.Rng.Bool()
+			for k := 0; k < g.Rng.Range(1, 3); k++ {
+				var body []byte
+				switch g.Rng.Intn(3) {
+				case 0:
+					body = stream([]Item{doneItem(int(tds.TDS_DONE), 0, 0, 0)})
+				case 1:
+					body = g.Rng.Bytes(g.Rng.Range(1, 6))
+				default:
+					body = stream(Response(g))
+				}
+				if len(body) == 0 {
+					body = []byte{0xfd, 0, 0, 0, 0, 0, 0, 0, 0}
+				}
+				pkts = append(pkts, Pkt{MsgType: int(tds.TDS_BUF_RESPONSE), Body: body, EOM: g.Rng.Bool()})
+			}
+			rxContinue = true
+			res, fed := RxRun(1, 1, 512, pkts)
+			rxContinue = false
+			var in sx.L
+			for _, p := range pkts[:fed] {
+				in = append(in, p.tree())
+			}
+			g.Out.Case(15, sx.L{sx.I(1), sx.I(1), sx.I(512), in}, res, "malformed-continue")
+		}
 	}
 }
 
@@ -667,9 +707,12 @@ func GenRx(g *pk.Gen) {
 type Call struct {
 	Kind, K, Outcome int
 	WrapEOF          bool // outcome 3 only: the callback's error wraps io.EOF (still an error, not the io.EOF signal)
+	NoWait           bool // NextPackageUntil is called with wait = false
 }
 
-func (c Call) tree() sx.T { return sx.L{sx.I(int64(c.Kind)), sx.I(int64(c.K)), sx.I(int64(c.Outcome))} }
+func (c Call) tree() sx.T {
+	return sx.L{sx.I(int64(c.Kind)), sx.I(int64(c.K)), sx.I(int64(c.Outcome)), sx.Bool(c.NoWait)}
+}
 
 var errCb = errors.New("callback failed")
 var errCbWrapEOF = fmt.Errorf("short read: %w", io.EOF)
@@ -679,7 +722,11 @@ func pkgTree(p tds.Package) sx.T {
 	return sx.L{t[1], t[2]}
 }
 
-func ConsumerRun(need, nenv int, rounds [][]Pkt, calls [][]Call) sx.L {
+// ConsumerRun: conc[r] = the packets of round r are not fed before its calls but by a second goroutine, a few
+// milliseconds after the round's first call (a NextPackageUntil) has started: the rest of a response arriving while the
+// consumer is already reading it. The calls as effectively made are returned (a first call with wait = false on an
+// empty queue is made with wait = true: otherwise its result would depend on who is faster).
+func ConsumerRun(need, nenv int, rounds [][]Pkt, calls [][]Call, conc []bool) (sx.L, [][]Call) {
 	info := &tds.Info{}
 	info.ChannelPackageQueueSize = 100000
 	conn, err := tds.VerifNewConn(context.Background(), info, nullTransport{}, false)
@@ -695,7 +742,8 @@ func ConsumerRun(need, nenv int, rounds [][]Pkt, calls [][]Call) sx.L {
 	}
 	var res sx.L
 	panicked := false
-	for r, pkts := range rounds {
+	eff := make([][]Call, len(calls))
+	feed := func(pkts []Pkt) bool {
 		for _, p := range pkts {
 			pkt := &tds.Packet{Data: append([]byte{}, p.Body...)}
 			pkt.Header.MsgType = tds.PacketHeaderType(p.MsgType)
@@ -705,23 +753,58 @@ func ConsumerRun(need, nenv int, rounds [][]Pkt, calls [][]Call) sx.L {
 			}
 			pkt.Header.Length = uint16(8 + len(p.Body))
 			if feedPacket(ch, pkt) {
-				panicked = true
-				break
+				return true
 			}
+		}
+		return false
+	}
+	for r, pkts := range rounds {
+		isConc := r < len(conc) && conc[r] && len(calls[r]) > 0
+		var feederDone chan bool
+		var fed chan struct{}
+		if !isConc {
+			panicked = feed(pkts)
 		}
 		if panicked {
 			// the channel's locks may still be held by the panicked call: do not touch it again
-			return append(res, sx.L{sx.L{sx.L{sx.I(-1)}, sx.I(0)}})
+			return append(res, sx.L{sx.L{sx.L{sx.I(-1)}, sx.I(0)}}), eff
 		}
 		var rr sx.L
-		for _, c := range calls[r] {
-			ctx, cancel := context.WithTimeout(context.Background(), 30*time.Millisecond)
+		for ci, c := range calls[r] {
+			timeout := 30 * time.Millisecond
+			if isConc && ci == 0 {
+				// the rest of the response arrives while this call is under way
+				if n, _ := ch.VerifQueueLens(); n == 0 {
+					c.NoWait = false
+				}
+				timeout = 30 * time.Second
+				feederDone = make(chan bool, 1)
+				fed = make(chan struct{})
+				go func(pkts []Pkt, fed chan struct{}, done chan bool) {
+					time.Sleep(5 * time.Millisecond)
+					r := feed(pkts)
+					close(fed)
+					done <- r
+				}(pkts, fed, feederDone)
+			}
+			eff[r] = append(eff[r], c)
+			ctx, cancel := context.WithTimeout(context.Background(), timeout)
+			if fed != nil {
+				// once everything has been fed the call has all it will ever get: if it is still waiting 200 ms later it
+				// waits for good, and its context ends
+				go func(fed chan struct{}, cancel context.CancelFunc) {
+					<-fed
+					time.Sleep(200 * time.Millisecond)
+					cancel()
+				}(fed, cancel)
+				fed = nil
+			}
 			var out sx.T
 			classify := func(err error) sx.T {
 				switch {
 				case errors.Is(err, tds.ErrNoPackageReady):
 					return sx.L{sx.I(4)}
-				case errors.Is(err, context.DeadlineExceeded):
+				case errors.Is(err, context.DeadlineExceeded), errors.Is(err, context.Canceled):
 					return sx.L{sx.I(6)}
 				}
 				return sx.L{sx.I(5)}
@@ -756,7 +839,7 @@ func ConsumerRun(need, nenv int, rounds [][]Pkt, calls [][]Call) sx.L {
 						return false, nil
 					}
 				}
-				p, err := ch.NextPackageUntil(ctx, true, cb)
+				p, err := ch.NextPackageUntil(ctx, !c.NoWait, cb)
 				var eedErr *tds.EEDError
 				switch {
 				case err == nil && p != nil:
@@ -780,6 +863,12 @@ func ConsumerRun(need, nenv int, rounds [][]Pkt, calls [][]Call) sx.L {
 				}
 			}
 			cancel()
+			if feederDone != nil {
+				if <-feederDone {
+					return append(res, sx.L{sx.L{sx.L{sx.I(-1)}, sx.I(0)}}), eff
+				}
+				feederDone = nil
+			}
 			n, _ := ch.VerifQueueLens()
 			rr = append(rr, sx.L{out, sx.I(int64(n))})
 		}
@@ -788,7 +877,7 @@ func ConsumerRun(need, nenv int, rounds [][]Pkt, calls [][]Call) sx.L {
 		}
 		res = append(res, rr)
 	}
-	return res
+	return res, eff
 }
 
 // GenConsumer: histories of rounds with every callback stop point (short responses) and outcome.
@@ -802,11 +891,11 @@ func GenConsumer(g *pk.Gen) {
 	if g.Thorough {
 		n = 5000
 	}
-	for i := 0; i < n; i++ {
+	for i := 0; i < n && !tooManyHangs(); i++ {
 		nr := g.Rng.Range(1, 5)
 		var rounds [][]Pkt
 		var calls [][]Call
-		var in sx.L
+		var conc []bool
 		for r := 0; r < nr; r++ {
 			var items []Item
 			switch g.Rng.Intn(6) {
@@ -833,29 +922,58 @@ func GenConsumer(g *pk.Gen) {
 			// calls: a few callbacks that stop / continue, ended by a call that completes the round
 			var cs []Call
 			for k := 0; k < g.Rng.Intn(3); k++ {
-				cs = append(cs, Call{1, g.Rng.Intn(4), []int{1, 2}[g.Rng.Intn(2)], false})
+				cs = append(cs, Call{Kind: 1, K: g.Rng.Intn(4), Outcome: []int{1, 2}[g.Rng.Intn(2)]})
 			}
 			switch g.Rng.Intn(3) {
 			case 0:
-				cs = append(cs, Call{2, 0, 0, false})
+				cs = append(cs, Call{Kind: 2})
 			case 1:
-				cs = append(cs, Call{1, g.Rng.Intn(5), 3, g.Rng.Intn(3) == 0})
+				cs = append(cs, Call{Kind: 1, K: g.Rng.Intn(5), Outcome: 3, WrapEOF: g.Rng.Intn(3) == 0})
 			default:
-				cs = append(cs, Call{1, g.Rng.Intn(3), 3, g.Rng.Intn(3) == 0}, Call{0, 0, 0, false})
+				cs = append(cs, Call{Kind: 1, K: g.Rng.Intn(3), Outcome: 3, WrapEOF: g.Rng.Intn(3) == 0}, Call{Kind: 0})
 			}
-			rounds = append(rounds, pkts)
-			calls = append(calls, cs)
+			// wait = false variants of the NextPackageUntil calls
+			for k := range cs {
+				if cs[k].Kind != 0 && g.Rng.Intn(4) == 0 {
+					cs[k].NoWait = true
+				}
+			}
+			if len(pkts) >= 2 && g.Rng.Intn(3) == 0 && cs[0].Kind != 0 {
+				// the response arrives in two parts: the first is there when the consumer starts, the rest arrives while
+				// its first call is under way
+				j := g.Rng.Range(1, len(pkts)-1)
+				rounds = append(rounds, pkts[:j], pkts[j:])
+				calls = append(calls, nil, cs)
+				conc = append(conc, false, true)
+			} else {
+				rounds = append(rounds, pkts)
+				calls = append(calls, cs)
+				conc = append(conc, false)
+			}
+		}
+		need, nenv := g.Rng.Intn(2), g.Rng.Intn(2)
+		res, eff := ConsumerRun(need, nenv, rounds, calls, conc)
+		var in sx.L
+		for r := range rounds {
 			var pt, ct sx.L
-			for _, p := range pkts {
+			for _, p := range rounds[r] {
 				pt = append(pt, p.tree())
+			}
+			cs := calls[r]
+			if r < len(eff) && len(eff[r]) == len(cs) {
+				cs = eff[r]
 			}
 			for _, c := range cs {
 				ct = append(ct, c.tree())
 			}
-			in = append(in, sx.L{pt, ct})
+			if pt == nil {
+				pt = sx.L{}
+			}
+			if ct == nil {
+				ct = sx.L{}
+			}
+			in = append(in, sx.L{pt, ct, sx.Bool(conc[r])})
 		}
-		need, nenv := g.Rng.Intn(2), g.Rng.Intn(2)
-		res := ConsumerRun(need, nenv, rounds, calls)
 		g.Out.Case(12, sx.L{sx.I(int64(need)), sx.I(int64(nenv)), in}, res, "consumer")
 	}
 }
@@ -961,6 +1079,9 @@ wait:
 		time.Sleep(200 * time.Microsecond)
 	}
 	elapsed := time.Since(start).Seconds()
+	if !readerGone && conn.VerifErrChLen() < 10 {
+		atomic.AddInt32(&hangs, 1) // neither did the reader end nor did it keep reporting: it is stuck
+	}
 	// channel errors first: once the package queue is empty NextPackage would pick one of the queued errors at random
 	cerrs := 0
 	for ch.VerifNextErr() != nil {
@@ -1061,7 +1182,7 @@ func GenTransport(g *pk.Gen) {
 		}
 		wire := WireBytes(pkts)
 		emit := func(k int, segLens []int, end int, tag string) {
-			if !g.WantTag(tag) {
+			if !g.WantTag(tag) || tooManyHangs() {
 				return
 			}
 			var segs [][]byte
@@ -1261,7 +1382,7 @@ func GenWriteFail(g *pk.Gen) {
 	if g.Thorough {
 		n = 600
 	}
-	for i := 0; i < n; i++ {
+	for i := 0; i < n && !tooManyHangs(); i++ {
 		ps := []int{16, 24, 64, 512, 512, 2048}[g.Rng.Intn(6)]
 		total := g.Rng.Range(1, 4*ps)
 		if g.Rng.Intn(4) == 0 {
